@@ -106,19 +106,35 @@ var kindMarkers = map[string]struct {
 	JSON any
 	Set  func(v reflect.Value)
 }{
-	"Actor":                 {"inbox", "https://example.com/marker/inbox", func(v reflect.Value) { v.FieldByName("Inbox").Set(reflect.ValueOf(vocab.IRI("https://example.com/marker/inbox"))) }},
-	"Activity":              {"object", "https://example.com/marker/object", func(v reflect.Value) { v.FieldByName("Object").Set(reflect.ValueOf(vocab.IRI("https://example.com/marker/object"))) }},
-	"IntransitiveActivity":  {"actor", "https://example.com/marker/actor", func(v reflect.Value) { v.FieldByName("Actor").Set(reflect.ValueOf(vocab.IRI("https://example.com/marker/actor"))) }},
-	"Question":              {"closed", true, func(v reflect.Value) { v.FieldByName("Closed").SetBool(true) }},
-	"Collection":            {"totalItems", 7, func(v reflect.Value) { v.FieldByName("TotalItems").SetUint(7) }},
-	"OrderedCollection":     {"totalItems", 7, func(v reflect.Value) { v.FieldByName("TotalItems").SetUint(7) }},
-	"CollectionPage":        {"partOf", "https://example.com/marker/partOf", func(v reflect.Value) { v.FieldByName("PartOf").Set(reflect.ValueOf(vocab.IRI("https://example.com/marker/partOf"))) }},
+	"Actor": {"inbox", "https://example.com/marker/inbox", func(v reflect.Value) {
+		v.FieldByName("Inbox").Set(reflect.ValueOf(vocab.IRI("https://example.com/marker/inbox")))
+	}},
+	"Activity": {"object", "https://example.com/marker/object", func(v reflect.Value) {
+		v.FieldByName("Object").Set(reflect.ValueOf(vocab.IRI("https://example.com/marker/object")))
+	}},
+	"IntransitiveActivity": {"actor", "https://example.com/marker/actor", func(v reflect.Value) {
+		v.FieldByName("Actor").Set(reflect.ValueOf(vocab.IRI("https://example.com/marker/actor")))
+	}},
+	"Question":          {"closed", true, func(v reflect.Value) { v.FieldByName("Closed").SetBool(true) }},
+	"Collection":        {"totalItems", 7, func(v reflect.Value) { v.FieldByName("TotalItems").SetUint(7) }},
+	"OrderedCollection": {"totalItems", 7, func(v reflect.Value) { v.FieldByName("TotalItems").SetUint(7) }},
+	"CollectionPage": {"partOf", "https://example.com/marker/partOf", func(v reflect.Value) {
+		v.FieldByName("PartOf").Set(reflect.ValueOf(vocab.IRI("https://example.com/marker/partOf")))
+	}},
 	"OrderedCollectionPage": {"startIndex", 3, func(v reflect.Value) { v.FieldByName("StartIndex").SetUint(3) }},
 	"Place":                 {"latitude", 12.5, func(v reflect.Value) { v.FieldByName("Latitude").SetFloat(12.5) }},
-	"Profile":               {"describes", "https://example.com/marker/describes", func(v reflect.Value) { v.FieldByName("Describes").Set(reflect.ValueOf(vocab.IRI("https://example.com/marker/describes"))) }},
-	"Relationship":          {"subject", "https://example.com/marker/subject", func(v reflect.Value) { v.FieldByName("Subject").Set(reflect.ValueOf(vocab.IRI("https://example.com/marker/subject"))) }},
-	"Tombstone":             {"formerType", "Note", func(v reflect.Value) { v.FieldByName("FormerType").Set(reflect.ValueOf(vocab.ActivityVocabularyType("Note"))) }},
-	"Link":                  {"href", "https://example.com/marker/href", func(v reflect.Value) { v.FieldByName("Href").Set(reflect.ValueOf(vocab.IRI("https://example.com/marker/href"))) }},
+	"Profile": {"describes", "https://example.com/marker/describes", func(v reflect.Value) {
+		v.FieldByName("Describes").Set(reflect.ValueOf(vocab.IRI("https://example.com/marker/describes")))
+	}},
+	"Relationship": {"subject", "https://example.com/marker/subject", func(v reflect.Value) {
+		v.FieldByName("Subject").Set(reflect.ValueOf(vocab.IRI("https://example.com/marker/subject")))
+	}},
+	"Tombstone": {"formerType", "Note", func(v reflect.Value) {
+		v.FieldByName("FormerType").Set(reflect.ValueOf(vocab.ActivityVocabularyType("Note")))
+	}},
+	"Link": {"href", "https://example.com/marker/href", func(v reflect.Value) {
+		v.FieldByName("Href").Set(reflect.ValueOf(vocab.IRI("https://example.com/marker/href")))
+	}},
 }
 
 func typeDoc(name, id string) map[string]any {
